@@ -108,7 +108,7 @@ def run_unit_cached(unit, seed, scratch):
 # bounded fallback (see main): Verus unit template -> differential suite of /verif/replay, and what a suite can witness
 UNIT_SUITE = {"utils": "utils", "qvector": "qvector", "qwt": "qwt", "bitvector": "bitvector", "wt": "wt", "rsq": "rsq",
               "rswide": "rsbin", "rsnarrow": "rsbin", "darray": "darray", "prefetch": "qwt"}
-SUITE_PROPS = {"utils": ["C17"], "qvector": ["C13", "C10", "C12", "C04"], "qwt": ["C01", "C09", "C10", "C12", "C04"],
+SUITE_PROPS = {"utils": ["C17"], "qvector": ["C13", "C10", "C12", "C04", "C19"], "qwt": ["C01", "C09", "C10", "C12", "C04"],
                "bitvector": ["C08", "C10", "C12", "C04"], "wt": ["C03", "C10", "C12", "C04"], "rsq": ["C05", "C10", "C04"],
                "rsbin": ["C06", "C10", "C04"], "darray": ["C07", "C10", "C04"]}
 SUITE_FILE = {"hqwt": "src/quadwt/huffqwt.rs", "utils": "src/utils/mod.rs", "qvector": "src/qvector/mod.rs", "qwt": "src/quadwt/mod.rs", "bitvector": "src/bitvector/mod.rs",
@@ -119,7 +119,7 @@ SUITE_FILE = {"hqwt": "src/quadwt/huffqwt.rs", "utils": "src/utils/mod.rs", "qve
 PROP_SUITES = {"C01": ["qwt"], "C03": ["wt"], "C04": ["utils", "qvector", "bitvector", "qwt", "wt", "hqwt", "rsq", "rsbin", "darray"],
                "C05": ["rsq"], "C06": ["rsbin"], "C07": ["darray"], "C08": ["bitvector"], "C09": ["qwt", "hqwt"],
                "C10": ["qvector", "bitvector", "qwt", "wt", "hqwt", "rsq", "rsbin", "darray"], "C12": ["qvector", "bitvector", "qwt", "wt", "hqwt"],
-               "C13": ["qvector"], "C17": ["utils"], "C19": ["bitvector", "qwt", "wt", "hqwt", "rsq", "rsbin", "darray"]}
+               "C13": ["qvector"], "C17": ["utils"], "C19": ["qvector", "bitvector", "qwt", "wt", "hqwt", "rsq", "rsbin", "darray"]}
 DIFF_SECONDS = {"quick": 10, "thorough": 60}
 
 
